@@ -27,6 +27,19 @@ pub enum Ty {
     List(Box<Ty>),
     /// `.iter()` of a slice / list
     Iter(Box<Ty>),
+    /// the subtag iterator (`Peekable<Split<..>>` / `impl Iterator<Item = &[u8]>`): the list of
+    /// the subtags that are left
+    IterB,
+    /// `BTreeMap<TinyStr4, Vec<TinyStr8>>`: the model's key-sorted association list `AMap`
+    Map,
+    /// a tuple
+    Tuple(Vec<Ty>),
+    /// `std::fmt::Formatter` used as an output buffer (the bytes written so far)
+    Fmt,
+    /// `std::fmt::Result` (writing to the buffer cannot fail)
+    FmtRes,
+    /// the result of `binary_search`: `Ok(i)` / `Err(i)` (Lean `Nat ⊕ Nat`)
+    BSearch,
     /// a struct or enum of the registry
     Named(String),
     /// a type parameter instantiated by the configuration
@@ -51,6 +64,7 @@ pub struct NewtypeInfo {
 pub struct RecordInfo {
     pub fields: Vec<(String, syn::Type)>,
     pub tokens: String,
+    pub derives: Vec<String>,
 }
 
 pub struct EnumInfo {
@@ -164,7 +178,7 @@ impl Registry {
                 for f in bare.fields.iter_mut() {
                     f.attrs.clear();
                 }
-                Ok(Some((cfg, RecordInfo { fields, tokens: norm_tokens(&bare) })))
+                Ok(Some((cfg, RecordInfo { fields, tokens: norm_tokens(&bare), derives: derives_of(&s.attrs) })))
             }
             _ => Err(format!("struct {} has no named fields any more", name)),
         }
